@@ -146,15 +146,14 @@ fn cleaned(m: &QMap) -> QMap {
 /// Is there an assertion/assignment that depends on an omitted posting earlier on the same account?
 pub fn omitted_then_constraint_same_account(ps: &[P]) -> Option<&'static str> {
     let o = ps.iter().position(|p| p.is_omitted())?;
-    for p in &ps[o + 1..] {
-        if p.acct == ps[o].acct {
-            if p.is_assign() {
-                return Some("assign");
-            }
-            if p.bal != Bal::None {
-                return Some("assert");
-            }
-        }
+    // an assignment anywhere after the omitted posting makes the transaction circular (the inferred amount
+    // depends on the assigned one and vice versa), whatever stands between them: it takes precedence
+    let later = || ps[o + 1..].iter().filter(|p| p.acct == ps[o].acct);
+    if later().any(|p| p.is_assign()) {
+        return Some("assign");
+    }
+    if later().any(|p| p.bal != Bal::None) {
+        return Some("assert");
     }
     None
 }
